@@ -128,7 +128,7 @@ class Fuzzer:
                     _j = _v.jobs.get((body['batch_id'], body['job_id']))
                     if _j is not None:
                         self.worker_posts.append({'job': [body['batch_id'], body['job_id']], 'attempt_id': body['job_spec']['attempt_id'], 'always_run': bool(_j['always_run']),
-                                                  'marked_cancelled': bool(_v.marked_cancelled(_j)), 'cancelled_flag': bool(_j['cancelled']), 'committed': bool(_v.committed(_j)), 'state': _j['state'], 'during': self.current})
+                                                  'marked_cancelled': bool(_v.marked_cancelled(_j)), 'cancelled_flag': bool(_j['cancelled']), 'group_state': (_v.groups.get((body['batch_id'], _j['job_group_id'])) or {}).get('state'), 'committed': bool(_v.committed(_j)), 'state': _j['state'], 'during': self.current})
                 except Exception:  # observation only
                     pass
                 if self.rng.random() < self.cfg['worker_reject_p']:
